@@ -118,8 +118,8 @@ pub open spec fn filter_wf(f: &Filter) -> bool {
 impl Filter {
 //@ extract src/filter/filter_impl.rs Filter::from_json
 //@   sub R11 `serde_json::from_str(json_str)` => `vx_json_parse(json_str)`
-//@   sub R11 `if v.is_err() { __ }` => `if v.is_err() { return Err(Error::new(ErrorKind::InvalidData(vx_opaque_string()))); }`
-//@   sub R11 `let v: Value = v.unwrap();` => `let v: VxJson = v.unwrap();`
+//@   sub R11 `if v.is_err() { __ }` => `if v.is_err() { return Err(Error::new(ErrorKind::InvalidData(vx_opaque_string()))); }` ?
+//@   sub R11 `: Value` => `: VxJson` *
 //@   sub R11 `v[` => `v.vx_idx(` *
 //@   sub R11 `].as_u64()` => `).as_u64()` *
 //@   sub R11 `].as_bool()` => `).as_bool()` *
@@ -221,5 +221,93 @@ pub proof fn theorem_json_eac_same_decision(fj: &Filter, j: &VxJson, fe: &Filter
         if p1.len() > 0 { lemma_same_id_crit(fj.apid->Some_0, fe.apid->Some_0, p1, has_rx_chars(p1), m.extended_header->Some_0.apid.char4@); }
         if p2.len() > 0 { lemma_same_id_crit(fj.ctid->Some_0, fe.ctid->Some_0, p2, has_rx_chars(p2), m.extended_header->Some_0.ctid.char4@); }
     }
+}
+
+// ---- front-end: dlt-viewer filter files (DLF). Filter::from_quick_xml_reader first collects the child elements of <filter> into a
+// map element name -> text (quick_xml event loop: not modelled), then builds the filter from that map: this second part, from
+// `if let Some(s) = attrs.get("type")` to the end, is the statement range under contract. ----
+#[verifier::external_body]
+pub struct VxAttrs { m: std::collections::HashMap<String, String> }
+impl VxAttrs {
+    pub uninterp spec fn a(&self, key: Seq<char>) -> Option<Seq<char>>;
+    #[verifier::external_body]
+    pub fn get(&self, key: &str) -> (r: Option<&String>)
+        ensures r is Some <==> self.a(key@) is Some, r is Some ==> r->Some_0@ == self.a(key@)->Some_0,
+    { unimplemented!() }
+    // `attrs.get(key) == Some(&"1".to_string())`
+    #[verifier::external_body]
+    pub fn vx_flag(&self, key: &str) -> (r: bool) ensures r == (self.a(key@) == Some("1"@)) { unimplemented!() }
+}
+#[verifier::external_body]
+pub fn vx_str_is_one(s: &String) -> (r: bool) ensures r == (s@ == "1"@) { unimplemented!() }
+pub uninterp spec fn parse_u8(s: Seq<char>) -> Option<u8>;   // str::parse::<u8>().ok()
+#[verifier::external_body]
+pub fn vx_parse_u8(s: &String) -> (r: Option<u8>) ensures r == parse_u8(s@) { unimplemented!() }
+#[verifier::external_body]
+pub fn vx_string_clone(s: &String) -> (r: String) ensures r@ == s@ { unimplemented!() }
+
+pub open spec fn flag(a: &VxAttrs, key: Seq<char>) -> bool { a.a(key) == Some("1"@) }
+// an id criterion of a DLF filter: present iff enabled and given and compilable; a regular expression iff the regexp flag element is
+// "1" or - element absent - the text contains regex characters (the ECU id is always literal)
+pub open spec fn dlf_id_crit_is(c: Option<Char4OrRegex>, a: &VxAttrs, enable: Seq<char>, key: Seq<char>, rx: Option<Seq<char>>) -> bool {
+    if flag(a, enable) && a.a(key) is Some {
+        let s = a.a(key)->Some_0;
+        let is_rx = match rx { None => false, Some(k) => match a.a(k) { Some(v) => v == "1"@, None => has_rx_chars(s) } };
+        c is Some ==> c4r_is(c->Some_0, s, is_rx)
+    } else { c is None }
+}
+pub open spec fn dlf_level(a: &VxAttrs, enable: Seq<char>, key: Seq<char>) -> Option<u8> {
+    if flag(a, enable) && a.a(key) is Some && parse_u8(a.a(key)->Some_0) is Some && parse_u8(a.a(key)->Some_0)->Some_0 <= 6 { parse_u8(a.a(key)->Some_0) } else { None }
+}
+pub open spec fn filter_is_dlf(f: &Filter, a: &VxAttrs) -> bool {
+    let ic = flag(a, "enablepayloadtext"@) && flag(a, "ignoreCase_Payload"@);
+    &&& f.kind == (match a.a("type"@) { Some(s) => match parse_u8(s) { Some(1u8) => FilterKind::Negative, Some(2u8) => FilterKind::Marker, Some(3u8) => FilterKind::Event, _ => FilterKind::Positive }, None => FilterKind::Positive })
+    &&& f.enabled == flag(a, "enablefilter"@)
+    &&& !f.negate_match && !f.at_load_time && f.lifecycles is None
+    &&& dlf_id_crit_is(f.ecu, a, "enableecuid"@, "ecuid"@, None)
+    &&& dlf_id_crit_is(f.apid, a, "enableapplicationid"@, "applicationid"@, Some("enableregexp_Appid"@))
+    &&& dlf_id_crit_is(f.ctid, a, "enablecontextid"@, "contextid"@, Some("enableregexp_Context"@))
+    &&& f.verb_mstp_mtin == (if flag(a, "enablecontrolmsgs"@) { Some((0x03u8 << 1, 7u8 << 1)) } else { None::<(u8, u8)> })
+    &&& f.ignore_case_payload == ic
+    &&& (if flag(a, "enablepayloadtext"@) && a.a("payloadtext"@) is Some {
+            let s = a.a("payloadtext"@)->Some_0;
+            if flag(a, "enableregexp_Payload"@) {
+                f.payload is None && f.payload_as_regex is None && (f.payload_regex is Some ==> fancy_pat(&f.payload_regex->Some_0) == (if ic { ci_prefixed(s) } else { s }))
+            } else {
+                f.payload_regex is None && f.payload is Some && f.payload->Some_0@ == s && (f.payload_as_regex is Some ==> sre_ci_literal(&f.payload_as_regex->Some_0) == s)
+            }
+        } else { f.payload is None && f.payload_regex is None && f.payload_as_regex is None })
+    &&& f.loglevel_max == dlf_level(a, "enableLogLevelMax"@, "logLevelMax"@)
+    &&& f.loglevel_min == dlf_level(a, "enableLogLevelMin"@, "logLevelMin"@)
+}
+impl Filter {
+//@ extract src/filter/filter_impl.rs region `if let Some(s) = attrs.get("type") {` .. `$end` in Filter::from_quick_xml_reader
+//@   sig pub fn dlf_from_attrs(mut filter: Filter, attrs: &VxAttrs) -> (r: Result<Filter, Error>)
+//@   sub R11 `attrs.get("enablefilter") == Some(&vx_opaque_string())` => `attrs.vx_flag("enablefilter")`
+//@   sub R11 `attrs.get("enableecuid") == Some(&vx_opaque_string())` => `attrs.vx_flag("enableecuid")`
+//@   sub R11 `attrs.get("enableapplicationid") == Some(&vx_opaque_string())` => `attrs.vx_flag("enableapplicationid")`
+//@   sub R11 `attrs.get("enablecontextid") == Some(&vx_opaque_string())` => `attrs.vx_flag("enablecontextid")`
+//@   sub R11 `attrs.get("enablecontrolmsgs") == Some(&vx_opaque_string())` => `attrs.vx_flag("enablecontrolmsgs")`
+//@   sub R11 `attrs.get("enablepayloadtext") == Some(&vx_opaque_string())` => `attrs.vx_flag("enablepayloadtext")`
+//@   sub R11 `attrs.get("ignoreCase_Payload") == Some(&vx_opaque_string())` => `attrs.vx_flag("ignoreCase_Payload")`
+//@   sub R11 `attrs.get("enableregexp_Payload") == Some(&vx_opaque_string())` => `attrs.vx_flag("enableregexp_Payload")`
+//@   sub R11 `attrs.get("enableLogLevelMax") == Some(&vx_opaque_string())` => `attrs.vx_flag("enableLogLevelMax")`
+//@   sub R11 `attrs.get("enableLogLevelMin") == Some(&vx_opaque_string())` => `attrs.vx_flag("enableLogLevelMin")`
+//@   sub R11 `ir == &vx_opaque_string()` => `vx_str_is_one(ir)` x2
+//@   sub R11 `s.parse::<u8>().unwrap_or_default()` => `vx_parse_u8(s).unwrap_or(0)`
+//@   sub R11 `s.parse::<u8>().unwrap_or(0xff)` => `vx_parse_u8(s).unwrap_or(0xff)` x2
+//@   sub R11 `Char4OrRegex::from_str(` => `vx_char4orregex_from_str(` *
+//@   sub R11 `let s = vx_opaque_string() + s;` => `let s = vx_ci_prefix(s);`
+//@   sub R11 `Regex::new(&s)` => `vx_fancy_new(s.as_str())`
+//@   sub R11 `Regex::new(s)` => `vx_fancy_new(s)`
+//@   sub R11 `s.clone()` => `vx_string_clone(s)`
+//@   sub R11 `regex::RegexBuilder::new(&regex::escape(s)) .case_insensitive(true) .build()` => `vx_ci_literal_regex(s)`
+//@   sub R11 `.map_err(__)` => `` *
+//@   spec
+//@|    requires filter.plain(FilterKind::Positive) && filter.apid is None && filter.ctid is None, // Filter::new(FilterKind::Positive)
+//@|    ensures
+//@|        r is Ok ==> filter_is_dlf(&r->Ok_0, attrs), // O:dlf.fields (every field is what the filter file says)
+//@|        r is Ok ==> filter_wf(&r->Ok_0), // O:dlf.wf (the filter is well-formed for Filter::matches: a literal payload text is matched ignoring case only if the file says so)
+//@ end
 }
 // ---- end of units/filterjson/part.rs ----
